@@ -13,11 +13,12 @@ def run(ctx):
     svc = TracepointConfigService()
     fake = type("D", (), {})()
     fake.config = type("C", (), {"tracepoints": svc})()
-    r1 = api.Deep.register_tracepoint(fake, "f.py", 10, {"fire_count": "2"}, ["a"], [])
+    r1 = api.Deep.register_tracepoint(fake, "f.py", 10, {"fire_count": "2"}, ["total", "total", "count"], [])
     r2 = api.Deep.register_tracepoint(fake, "f.py", 10)
     j = dict(api="register_tracepoint twice on f.py:10, unregister the second twice")
     ctx.case(j, bucket="api")
     first = svc._custom[0]
+    # the watches are kept as given: in the given order, a repeated one repeated (the snapshot lists one result per watch)
     r2.unregister()
     if len(svc._custom) != 1 or svc._custom[0] is not first:
         ctx.fail("unregistering the second registration on f.py:10 left %d registrations / removed the first" % len(svc._custom), j,
@@ -26,7 +27,7 @@ def run(ctx):
     if len(svc._custom) != 1 or svc._custom[0] is not first:
         ctx.fail("unregistering the same handle twice removed another registration", j, tag="unregister-twice")
     a = first._Trigger__actions[0]
-    if a.config.get("fire_count") != "2" or a.config.get("watches") != ["a"]:
+    if a.config.get("fire_count") != "2" or a.config.get("watches") != ["total", "total", "count"]:
         ctx.fail("the registered tracepoint does not carry the given arguments / watches: %r" % (a.config,), j, tag="register-args")
 
 
